@@ -170,6 +170,11 @@ class _ParseTreeProcessor(parsimonious.NodeVisitor):
     def visit_end_of_line(self, _n: _Node, _c: _Children) -> None:
         self._current_line_number += 1
 
+    def visit_definition(self, _n: _Node, _c: _Children) -> None:
+        # The last attribute is committed when its comment is flushed, which otherwise happens only on an empty line
+        # or on the next statement. A definition is not required to end with an empty line, so flush explicitly.
+        self._flush_comment()
+
     # ================================================== Statements ==================================================
 
     visit_statement = _make_typesafe_child_lifter(type(None))  # Make sure all sub-nodes have been handled,
